@@ -226,3 +226,46 @@ func init() {
 	reg[HTagOpts]()
 	reg[HBools]()
 }
+
+// Self-referential types (schema generation must return an error, not crash).
+
+type HRec struct {
+	V    int
+	Next *HRec
+}
+
+type HRecA struct {
+	B *HRecB
+}
+
+type HRecB struct {
+	A []HRecA
+}
+
+type HRecM struct {
+	M map[string]HRecM
+}
+
+type HRecDeep struct {
+	X struct {
+		Y []struct {
+			Z **HRecDeep
+		}
+	}
+}
+
+// RecursiveCases are kept out of Cases: only C15 (and C06) present them.
+var RecursiveCases []*Case
+
+func regRec[T any]() {
+	reg[T]()
+	RecursiveCases = append(RecursiveCases, Cases[len(Cases)-1])
+	Cases = Cases[:len(Cases)-1]
+}
+
+func init() {
+	regRec[HRec]()
+	regRec[HRecA]()
+	regRec[HRecM]()
+	regRec[HRecDeep]()
+}
